@@ -10,22 +10,39 @@ META = dict(
          "specification list holding exactly one record per pair (site of one primer, site of the complemented other primer) within the "
          "length bounds, whose members are the amplicons of the relational specification (soundness + completeness, never fatal); "
          "reverse-complementing the template gives the same multiset with the direction flipped; rotating a circular template permutes "
-         "the records; batch independence. obipcr --fragmented: the cutting of obiiter.IFragments is modelled and tied to the code; every "
+         "the records; batch independence. PROVENANCE (round 3): every base of every record is the base (its complement for direction "
+         "reverse) of a definite template position, obtained by cutting the list of positions with the same function and bounds; Phred "
+         "scores travel with the bases, pairing_mismatches accepted by the check designate the same base in the record as in the template; "
+         "exact domain of Subsequence. obipcr --fragmented: the cutting of obiiter.IFragments is modelled and tied to the code; every "
          "amplicon lies inside the unique fragment that owns it, duplicates lie in the zone shared by two fragments, and searching the "
          "fragments finds the same SET of amplicons as searching the template. The models are tied to the real code on every run "
          "(vm_compute on the same templates PCRSim / PCRSlice / PCRSliceWorker ran on, amplicons compared as multisets of (sequence, "
-         "direction, match strings, error counts); IFragments on sequence lengths around every loop boundary); a brute-force Python oracle "
-         "checks the statement directly on the implementation's amplicons, with relational clauses (reverse complement, all rotations of "
-         "small circles - as multisets -, reversed batches) and a command-level clause running obipcr itself (option plumbing, --fragmented).",
+         "direction, match strings, error counts) - with their scores and mismatch positions when the templates carry some; Subsequence "
+         "and ReverseComplement called directly, error returns included; IFragments on sequence lengths around every loop boundary); a "
+         "brute-force Python oracle checks the statement directly on the implementation's amplicons (scores, inherited annotations and "
+         "mismatch positions included), with relational clauses (reverse complement, all rotations of small circles - as multisets -, "
+         "reversed batches), the option set (every With-option and accessor), malformed primers (must be refused) and a command-level "
+         "clause running obipcr itself through its plumbing (fasta / fastq / gzip / stdin / several files / --no-order / --batch-size / "
+         "--max-cpu / --force-one-cpu / json, fasta, fastq, compressed or file output; --fragmented).",
     note="Trusted: Coq kernel + vm_compute; the C matcher (ManberSub/ManberNoErr) is represented by the specification matcher "
          "(its exactness is property C10; re-tested here by every correspondence case, including # / ! / [..] patterns); "
          "harness/generators. Residual hypotheses of the theorems are on the OPTIONS only: extension >= 0 when requested, primers "
          "non-empty, and on circular templates primers not longer than MAX_PAT_LEN = 64 (the length of the circular extension); templates "
-         "are arbitrary (empty, shorter than a primer, flanked amplicon longer than the circle). Fragmented mode: theorems assume a "
-         "positive step (99 max > sum of the primer lengths; otherwise IFragments does not advance - observed, not repaired) and no "
-         "flanks; multiplicities differ (known finding fragmented-duplicates, characterised by C11_fragments_duplicate_zone / "
-         "_owner_unique). Indel mode is not reachable from PCR (MakeApatPattern(primer, e, false)). Primers of 64 symbols or more are "
-         "outside the matcher's domain (C10 known finding; 65 symbols crash MakeApatPattern's caller).")
+         "are arbitrary (empty, shorter than a primer, flanked amplicon longer than the circle); the provenance theorems have no hypothesis. "
+         "Fragmented mode: theorems assume a positive step (99 max > sum of the primer lengths; otherwise IFragments does not advance - "
+         "observed, not repaired) and no flanks; multiplicities differ (known finding fragmented-duplicates, characterised by "
+         "C11_fragments_duplicate_zone / _owner_unique). Indel mode is not reachable from PCR (MakeApatPattern(primer, e, false)). Primers "
+         "of 64 symbols or more are refused (checked). Keys of pairing_mismatches are compared by the oracle (case-insensitively: "
+         "ReverseComplement writes them in lower case); the model sees their rank only. A record longer than its circle shows a position "
+         "several times: any of them is accepted for a mismatch. "
+         "Not exercised (coverage report of the anchored files): the log.Fatal branches of _Pcr and the error return of _Segment "
+         "(proved unreachable: C11_linear_never_fatal / C11_circular_never_fatal), the panic of IFragments (C11_fragments_wf), the "
+         "error returns of complementPattern / new_apatseq (allocation failures only; the latter would free Go memory), "
+         "ApatPattern.Print (debug), allowsIndel, FindAllIndex with a negative begin, IsMatching / BestMatch / FilterBestMatch / "
+         "AllMatches (not used by PCR: property C10 judges them). Outside the property: template bytes that are not letters (gaps, "
+         "digits) are encoded as 'a' by the C matcher (EncodeSequence) and so match where an a would (domain of C10); Subsequence on a "
+         "circular sequence with a negative end panics (no caller does it; observation only); ids of the records (fragment-relative "
+         "coordinates, first piece of a wrapped segment).")
 TRUSTED = ["the C bit-parallel matcher is represented in the model by the specification matcher (positions with <= e mismatches against "
            "IUPAC / [..] / ! positions, none on a # position, minimal count) — its exactness is property C10 and is re-tested by every "
            "correspondence case of this check"]
@@ -33,7 +50,7 @@ TRUSTED = ["the C bit-parallel matcher is represented in the model by the specif
 IUPAC = dict(a="a", c="c", g="g", t="t", u="t", r="ag", y="ct", s="cg", w="at", k="gt", m="ac",
              b="cgt", d="agt", h="act", v="acg", n="acgt", x="acgt")
 PCOMP = dict(a="t", c="g", g="c", t="a", u="a", r="y", y="r", s="s", w="w", k="m", m="k", b="v", d="h", h="d", v="b", n="n", x="x")
-TCOMP = dict(a="t", c="g", g="c", t="a", n="n")
+TCOMP = dict(PCOMP)          # templates may carry IUPAC ambiguity letters too (matched by negated positions only)
 MAXPAT = 64
 
 
@@ -139,8 +156,10 @@ def spec_forward(t, c, direction):
                 if ext >= 0:
                     tot = fl + ins + rl + 2 * ext
                     seq = circ(t, i - ext, tot)
+                    a = i - ext
                 else:
                     seq = circ(t, i + fl, ins)
+                    a = i + fl
                 fm, rm = circ(t, i, fl), rc(circ(t, j, rl))
             else:
                 if ext >= 0:
@@ -153,8 +172,10 @@ def spec_forward(t, c, direction):
                     seq = t[a:b]
                 else:
                     seq = t[i + fl:j]
+                    a = i + fl
                 fm, rm = t[i:i + fl], rc(t[j:j + rl])
-            amps.append(dict(seq=seq, dir=direction, fm=fm, fe=ei, rm=rm, re=ej))
+            # a0: position (on the strand searched) of the first base of the record, possibly negative on a circle
+            amps.append(dict(seq=seq, dir=direction, fm=fm, fe=ei, rm=rm, re=ej, a0=a))
     return amps, unconstrained
 
 
@@ -175,6 +196,84 @@ def canon(amps):
 
 def flip(k):
     return (k[0], "reverse" if k[1] == "forward" else "forward") + tuple(k[2:])
+
+
+# ---- what a record inherits from its template: Phred scores and annotations (pairing_mismatches in ITS coordinates)
+def tpl_index(c, t, e, k):
+    """0-based position, on the template as given, of base k of the specified record e (spec_forward coordinates are those
+    of the strand searched: the template for direction forward, its reverse complement for direction reverse)."""
+    L = len(t)
+    x = e["a0"] + k
+    if c["circular"]:
+        x %= L
+    return x if e["dir"] == "forward" else L - 1 - x
+
+
+def exp_qual(c, ti, e):
+    qs = c.get("quals") or []
+    q = qs[ti] if ti < len(qs) else None
+    if not q:
+        return None
+    t = c["templates"][ti]
+    return [q[tpl_index(c, t, e, k)] for k in range(len(e["seq"]))]
+
+
+def pm_rev_key(k):
+    """key of a pairing mismatch "(A:30)->(C:20)" read on the other strand (what ReverseComplement writes)"""
+    b = list(k)
+    b[1], b[9] = TCOMP[b[9].lower()], TCOMP[b[1].lower()]
+    b[3], b[4], b[11], b[12] = b[11], b[12], b[3], b[4]
+    return "".join(b)
+
+
+def pm_ok(c, ti, e, got_pm):
+    """pairing_mismatches of a record: every mismatch of the template that lies inside the record is kept, at a position
+    (1-based, record coordinates) where the record shows that very base of the template (a record longer than its
+    circle shows it several times: any of them), with its key read on the strand of the record; the others are dropped."""
+    ann = (c.get("annots") or [])
+    ann = ann[ti] if ti < len(ann) else {}
+    src = ann.get("pairing_mismatches") or {}
+    t = c["templates"][ti]
+    got = {k.lower(): v for k, v in (got_pm or {}).items()}
+    want = {}
+    for key, p in src.items():
+        occ = [k + 1 for k in range(len(e["seq"])) if tpl_index(c, t, e, k) == p - 1]
+        if occ:
+            want[(key if e["dir"] == "forward" else pm_rev_key(key)).lower()] = occ
+    if set(got) != set(want):
+        return False
+    return all(got[k] in want[k] for k in want)
+
+
+def exp_extra(c, ti):
+    ann = (c.get("annots") or [])
+    ann = ann[ti] if ti < len(ann) else {}
+    return {k: str(v) for k, v in ann.items() if k not in OWN_KEYS}
+
+
+OWN_KEYS = ("tix", "direction", "forward_match", "forward_error", "reverse_match", "reverse_error", "forward_primer", "reverse_primer",
+            "pairing_mismatches")
+
+
+def judge_inherited(c, ti, exp, got):
+    """exp: specified records (with coordinates), got: observed records of the same template; the multisets of keys are
+    already known to be equal. Returns None or (class, got, expected)."""
+    if not (c.get("quals") or c.get("annots")):
+        return None
+    eq = sorted((akey(e), tuple(exp_qual(c, ti, e) or ())) for e in exp)
+    gq = sorted((akey(g), tuple(g.get("qual") or ())) for g in got)
+    if eq != gq:
+        return ("qualities", gq, eq)
+    xt = exp_extra(c, ti)
+    for g in got:
+        if (g.get("extra") or {}) != xt:
+            return ("inherited-annotations", [akey(g), g.get("extra")], xt)
+        cands = [e for e in exp if akey(e) == akey(g) and tuple(exp_qual(c, ti, e) or ()) == tuple(g.get("qual") or ())]
+        if not any(pm_ok(c, ti, e, g.get("pm")) for e in cands):
+            ann = c["annots"][ti] if ti < len(c.get("annots") or []) else {}
+            return ("pairing-mismatches", [akey(g), g.get("pm")],
+                    dict(template_mismatches=ann.get("pairing_mismatches"), record_starts_at=[e["a0"] for e in cands]))
+    return None
 
 
 # ------------------------------------------------------------------ generators
@@ -221,7 +320,7 @@ def mutate(rng, toks, w, k):
     return "".join(w)
 
 
-def gen_case(rng, circular=None, small=False):
+def gen_case(rng, circular=None, small=False, inherit=None):
     fl = rng.choice([3, 4, 5, 6, 8, 12, 18])
     rl = fl if rng.random() < 0.4 else rng.choice([3, 4, 5, 6, 8, 12, 20])
     if small:
@@ -242,7 +341,8 @@ def gen_case(rng, circular=None, small=False):
         L = rng.choice([0, 1, 5, 12, 20, 30, 40, 63, 64, 65, 80, 100, 130]) if not small else rng.randrange(8, 28)
         if rng.random() < 0.6:
             L = max(L, 12)
-        t = list(rand_seq(rng, L, BASES if rng.random() < 0.9 else BASES + "n"))
+        r = rng.random()
+        t = list(rand_seq(rng, L, BASES if r < 0.86 else BASES + "n" if r < 0.93 else BASES * 3 + "rykmswbdhvn"))
         # plant priming sites: forward-strand sites (fwd ... crev) and reverse-strand sites (rev ... cfwd)
         nsites = rng.choice([0, 1, 1, 2, 2, 3, 4])
         for _ in range(nsites):
@@ -300,8 +400,43 @@ def gen_case(rng, circular=None, small=False):
     ext = -1 if r < 0.5 else rng.choice([0, 1, 2, 3, 5, 10, 40])
     full = rng.random() < 0.4
     mode = rng.choice(["sim", "slice", "slice", "worker"])
-    return dict(templates=templates, fwd=fwd_s, rev=rev_s, ef=ef, er=er, min=mn, max=mx, ext=ext, full=full,
-                circular=circular, mode=mode)
+    c = dict(templates=templates, fwd=fwd_s, rev=rev_s, ef=ef, er=er, min=mn, max=mx, ext=ext, full=full,
+             circular=circular, mode=mode)
+    if inherit is None:
+        inherit = rng.random() < 0.25
+    if inherit:
+        decorate(rng, c)
+    return c
+
+
+PM_KEYS = ["(%s:%02d)->(%s:%02d)" % (x, qa, y, qb) for x in "ACGT" for y in "ACGT" if x != y for (qa, qb) in ((30, 20), (7, 40), (12, 12))]
+
+
+def decorate(rng, c):
+    """what the templates carry besides their bases: Phred scores (some templates of the batch without), annotations -
+    plain ones, the ones obipcr itself writes (a second PCR on amplicons), and pairing_mismatches as obipairing writes them
+    (1-based positions; a few outside the template)"""
+    ts = c["templates"]
+    if rng.random() < 0.8:
+        c["quals"] = [[rng.randrange(0, 61) for _ in t] if rng.random() < 0.85 else None for t in ts]
+    if rng.random() < 0.8:
+        c["annots"] = []
+        for t in ts:
+            a = {}
+            if rng.random() < 0.7:
+                a["count"] = rng.randrange(1, 50)
+            if rng.random() < 0.4:
+                a["sample"] = rng.choice(["s1", "x y", "A"])
+            if rng.random() < 0.3:
+                a.update(direction=rng.choice(["forward", "reverse"]), forward_match="tttt", forward_error=9, reverse_primer="zz")
+            if t and rng.random() < 0.8:
+                pm = {}
+                for key in rng.sample(PM_KEYS, rng.choice([1, 1, 2, 3, 5])):
+                    r = rng.random()
+                    pm[key] = 1 if r < 0.1 else len(t) if r < 0.2 else rng.choice([0, len(t) + 1, len(t) + 70]) if r < 0.25 else rng.randrange(1, len(t) + 1)
+                a["pairing_mismatches"] = pm
+            c["annots"].append(a)
+    return c
 
 
 def gen_tiny_circle(rng):
@@ -324,8 +459,11 @@ def gen_tiny_circle(rng):
     templates = [t[r:] + t[:r] for r in sorted({0, rng.randrange(0, L), L - 1})]
     mn, mx = rng.choice([(0, 0), (0, 0), (1, 3), (2, 0), (0, 2 * L)])
     ext = rng.choice([-1, -1, 0, 1, L, 2 * L + 1, 13])
-    return dict(templates=templates, fwd=fwd, rev=rev, ef=ef, er=er, min=mn, max=mx, ext=ext, full=rng.random() < 0.3,
-                circular=True, mode=rng.choice(["sim", "slice", "worker"]))
+    c = dict(templates=templates, fwd=fwd, rev=rev, ef=ef, er=er, min=mn, max=mx, ext=ext, full=rng.random() < 0.3,
+             circular=True, mode=rng.choice(["sim", "slice", "worker"]))
+    if rng.random() < 0.3:
+        decorate(rng, c)
+    return c
 
 
 def hand_cases():
@@ -386,6 +524,44 @@ def hand_cases():
     add("fixed:reverse-window-longer-forward-primer", fwd="acgtacgtacgtacgtacgt", rev="ggc", max=6,
         templates=[rc("tt" + "acgtacgtacgtacgtacgt" + "a" * k + "gcc" + "tt") for k in (3, 4, 5, 6, 7)] + ["tt" + "acgtacgtacgtacgtacgt" + "a" * 6 + "gcc" + "tt"])
     add("circ-short-template", circular=True, templates=["gtaaaaaggccttttac", "cgtaaaaaggccttttta", "ccttttacgtaaaaagg"])
+    # ---- round 3: what a record inherits from its template
+    q17 = list(range(1, 18))
+    add("qualities-both-strands", templates=["ttacgtaaaaaggcctt", "aaggcctttttacgtaa", "ttacgtaaaaaggcctt"], quals=[q17, q17, None])
+    add("qualities-flanks-clipped", ext=3, templates=["tacgtaaaaaggcctttt", rc("tacgtaaaaaggcctttt")], quals=[list(range(18)), list(range(18))])
+    add("qualities-circular-wrap", circular=True, ext=3, templates=["aaaggcctt" + "c" * 6 + "ttacgtaa", "gtaaaaaggcc" + "t" * 5 + "ac"],
+        quals=[list(range(23)), list(range(18))])
+    add("qualities-circular-several-turns", circular=True, ext=12, templates=["acgtaggcct", "ggcctacgta"], quals=[list(range(10, 20)), list(range(10))])
+    pm17 = {"(A:30)->(C:20)": 8, "(G:11)->(T:22)": 2, "(T:01)->(A:02)": 11, "(C:40)->(G:40)": 7, "(A:05)->(T:06)": 17}
+    add("fixed:pm-inherited-forward", templates=["ttacgtaaaaaggcctt"], annots=[dict(count=3, pairing_mismatches=pm17)])
+    add("fixed:pm-inherited-reverse", templates=["aaggcctttttacgtaa"], annots=[dict(pairing_mismatches=pm17)], quals=[q17])
+    add("fixed:pm-inherited-flanks", ext=2, templates=["ttacgtaaaaaggcctt", "aaggcctttttacgtaa"], annots=[dict(pairing_mismatches=pm17)] * 2)
+    add("fixed:pm-inherited-circular", circular=True, ext=3, templates=["aaaggcctt" + "c" * 6 + "ttacgtaa"],
+        annots=[dict(pairing_mismatches={"(A:30)->(C:20)": 1, "(G:11)->(T:22)": 23, "(T:01)->(A:02)": 12, "(C:40)->(G:40)": 18, "(A:05)->(T:06)": 5})])
+    add("pm-circular-several-turns", circular=True, ext=12, templates=["acgtaggcct"], annots=[dict(pairing_mismatches={"(A:30)->(C:20)": 1, "(G:11)->(T:22)": 10})])
+    add("pm-out-of-range-positions", templates=["ttacgtaaaaaggcctt"], annots=[dict(pairing_mismatches={"(A:30)->(C:20)": 0, "(G:11)->(T:22)": 18, "(T:01)->(A:02)": 9})])
+    add("second-pcr-on-amplicons", templates=["ttacgtaaaaaggcctt", "aaggcctttttacgtaa"],
+        annots=[dict(direction="reverse", forward_match="tttt", forward_error=5, reverse_match="cccc", reverse_error=4, forward_primer="nn", reverse_primer="nn", count=2)] * 2)
+    add("iupac-template-letters", fwd="ac!gt", rev="ggcc", templates=["ttacrtaaaykaggcctt", "ttacntaaaaaggcctt", "aaggccttmttayytaa", "ttacgtarykmswbdhvnaggcctt"])
+    # lead (reverse-orientation block): the two sites of a reverse-strand amplicon carry different numbers of mismatches
+    f6, r6 = "acgtac", "ggccgg"
+    add("reverse-strand-unequal-errors", fwd=f6, rev=r6, ef=1, er=2,
+        templates=[rc("tt" + "acgaac" + "aaaaa" + rc(r6) + "tt"), rc("tt" + f6 + "aaaaa" + rc("gtccga") + "tt"), rc("tt" + "aagtac" + "aaaaa" + rc("ggacgg") + "tt"),
+                   "tt" + "acgaac" + "aaaaa" + rc(r6) + "tt", "tt" + f6 + "aaaaa" + rc("gtccga") + "tt"])
+    # lead (recycled C buffer): a SHORT template after a LONG one whose stale tail would complete the second site of the short
+    # one (the scan must stop at seqlen (+ the circular extension), not at the size of the buffer); both orders, both strands
+    long1 = "tt" + "acgt" + "aaaaa" + "ggcc" + "tt" + "c" * 80
+    for cut in (12, 13, 14):
+        for mode in ("slice", "worker"):
+            add("batch-stale-tail-%d-%s" % (cut, mode), mode=mode, templates=[long1, long1[:cut], rc(long1), rc(long1)[:len(long1) - 6], long1[:cut], long1])
+            add("batch-stale-tail-circular-%d-%s" % (cut, mode), mode=mode, circular=True, templates=[long1 + "g" * 70, long1[:cut], long1[:cut + 70]])
+    add("batch-stale-tail-errors", fwd=f6, rev=r6, ef=1, er=1, ext=2, mode="slice",
+        templates=["tt" + f6 + "aaaaa" + rc(r6) + "tt" + "a" * 30, "tt" + f6 + "aaaaa" + rc(r6)[:4], "tt" + f6 + "aaaaa" + rc(r6)[:5], "tt" + f6 + "aaaaa" + rc(r6)])
+    add("batch-of-twelve", mode="worker", templates=["ttacgtaaaaaggcctt" * k for k in (6, 1, 5, 0, 4, 1, 3, 2, 2, 3, 1, 7)])
+    # primers up to the 63 symbols the matcher holds
+    p63 = ("acgtgcatgactcagt" * 4)[:63]
+    add("primer-63-symbols", fwd=p63, rev="ggcc", ef=2, templates=["tt" + p63 + "aaaaa" + "ggcc" + "tt", rc("tt" + p63[:20] + "t" + p63[21:] + "aaaaa" + "ggcc" + "tt"), "tt" + p63[:62]])
+    add("primer-63-symbols-circular", circular=True, fwd=p63, rev="ggcc", templates=[p63[30:] + "aaaaa" + "ggcc" + "tt" + p63[:30], p63[:40]])
+    add("error-budget-3", fwd="acgtacgtac", rev="ggccggccgg", ef=3, er=3, templates=["tt" + "aagtaagtaa" + "ttttt" + "ccggacggcc" + "tt", "tt" + "aagtaagtaa" + "ttttt" + "caggacgacc" + "tt"])
     return C
 
 
@@ -393,8 +569,16 @@ def hand_cases():
 CASE_KEYS = ("templates", "fwd", "rev", "ef", "er", "min", "max", "ext", "full", "circular", "mode")
 
 
-def to_vh(c):
+def to_vh_plain(c):
     return {k: c[k] for k in CASE_KEYS}
+
+
+def to_vh(c):
+    d = {k: c[k] for k in CASE_KEYS}
+    for k in ("quals", "annots"):
+        if c.get(k):
+            d[k] = c[k]
+    return d
 
 
 def run_cases(ctx, cases):
@@ -422,11 +606,18 @@ def judge(c, o):
                 if a["fp"] != c["fwd"] or a["rp"] != c["rev"]:
                     bad.append((ti, "primer-annotation", [akey(a), a["fp"], a["rp"]], [c["fwd"], c["rev"]]))
                     break
+            inh = judge_inherited(c, ti, exp, o["amps"][ti])
+            if inh:
+                bad.append((ti,) + inh)
     return bad, unconstrained
 
 
 def single(c, ti):
-    return dict({k: c[k] for k in CASE_KEYS}, templates=[c["templates"][ti]], mode="sim")
+    d = dict({k: c[k] for k in CASE_KEYS}, templates=[c["templates"][ti]], mode="sim")
+    for k in ("quals", "annots"):
+        if c.get(k) and ti < len(c[k]):
+            d[k] = [c[k][ti]]
+    return d
 
 
 def report(ctx, name, klass, case, got, expected, extra=None):
@@ -464,12 +655,34 @@ def case_term(c, ti, amps):
 
 
 IMPORTS = "From Coq Require Import NArith List. Import ListNotations. Open Scope N_scope.\nFrom OBI.C11 Require Import Model."
+QIMPORTS = "From Coq Require Import ZArith NArith List. Import ListNotations.\nFrom OBI.C11 Require Import Model ModelQ.\nOpen Scope N_scope."
+
+
+def qcase_term(c, ti, amps):
+    """One Coq case of the provenance model: one template with its scores and pairing_mismatches, and the records observed
+    for it with theirs (keys of mismatches replaced by their rank among the template's keys; 999 = a key the template has not)."""
+    qs, an = c.get("quals") or [], c.get("annots") or []
+    q = (qs[ti] if ti < len(qs) else None) or []
+    src = sorted(((an[ti] if ti < len(an) else {}).get("pairing_mismatches") or {}).items())
+    ids_f = {k.lower(): i for i, (k, _) in enumerate(src)}
+    ids_r = {pm_rev_key(k).lower(): i for i, (k, _) in enumerate(src)}
+    recs = []
+    for a in sorted(amps, key=akey):
+        ids = ids_f if a["dir"] == "forward" else ids_r
+        pm = sorted((ids.get(k.lower(), 999), v) for k, v in (a.get("pm") or {}).items())
+        recs.append("(%s, [%s], [%s])" % (amp_term(akey(a)), ";".join(str(x) for x in (a.get("qual") or [])),
+                                         ";".join("(%d, (%d)%%Z)" % x for x in pm)))
+    return "mkq %s %s %d %d %d %d (%s) %s %s %s [%s] [%s] [%s]" % (
+        primer_term(c["fwd"]), primer_term(c["rev"]), c["ef"], c["er"], c["min"], c["max"],
+        "None" if c["ext"] < 0 else "Some %d" % c["ext"], "true" if c["full"] else "false",
+        "true" if c["circular"] else "false", seq_term(c["templates"][ti]),
+        ";".join(str(x) for x in q), ";".join("(%d, (%d)%%Z)" % (i, p) for i, (_, p) in enumerate(src)), "; ".join(recs))
 
 
 def evaluate(ctx, cases, broken, label, correspond=True, max_report=3):
     obs = run_cases(ctx, cases)
     nrep = {}
-    stats = dict(templates=0, with_amplicons=0, amplicons=0, unconstrained=0, failing=0)
+    stats = dict(templates=0, with_amplicons=0, amplicons=0, unconstrained=0, failing=0, provenance_model_cases=0)
     fails = []
     for i, (c, o) in enumerate(zip(cases, obs)):
         bad, unc = judge(c, o)
@@ -501,20 +714,26 @@ def evaluate(ctx, cases, broken, label, correspond=True, max_report=3):
                 report(ctx, "%s_%s_%d_%s" % (label, klass, i, ti), klass, wit, wgot, wexp, dict(tag=c.get("tag"), defect_class=key))
     mism = []
     if correspond:
-        terms, where = [], []
+        terms, where, qterms, qwhere = [], [], [], []
         for i, (c, o) in enumerate(zip(cases, obs)):
             if o["kind"] != "ok":
                 continue
             for ti, t in enumerate(c["templates"]):
                 if len(t) > 400 or len(o["amps"][ti]) > 60:
                     continue
-                terms.append(case_term(c, ti, o["amps"][ti]))
-                where.append((i, ti))
+                if c.get("quals") or c.get("annots"):
+                    qterms.append(qcase_term(c, ti, o["amps"][ti]))
+                    qwhere.append((i, ti))
+                else:
+                    terms.append(case_term(c, ti, o["amps"][ti]))
+                    where.append((i, ti))
         bad, err = ctx.correspond(label, IMPORTS, terms, shard=120)
-        if bad is None:
-            broken.append(dict(kind="correspondence", detail=err))
+        qbad, qerr = ctx.correspond(label + "q", QIMPORTS, qterms, fn="qmismatches", shard=80)
+        stats["provenance_model_cases"] = len(qterms)
+        if bad is None or qbad is None:
+            broken.append(dict(kind="correspondence", detail=err or qerr))
         else:
-            mism = [where[k] for k in bad]
+            mism = [where[k] for k in bad] + [qwhere[k] for k in qbad]
     return obs, fails, mism, stats
 
 
@@ -526,11 +745,11 @@ def relational(ctx, cases, obs, label):
         if o["kind"] != "ok" or not c["templates"]:
             continue
         # strand symmetry: reverse-complemented templates
-        derived.append(dict(to_vh(c), templates=[rc(t) for t in c["templates"]]))
+        derived.append(dict(to_vh_plain(c), templates=[rc(t) for t in c["templates"]]))
         meta.append(("strand", i, None))
         # batch independence: reversed order through another entry point
         if len(c["templates"]) > 1:
-            derived.append(dict(to_vh(c), templates=list(reversed(c["templates"])), mode=rng.choice(["slice", "worker"])))
+            derived.append(dict(to_vh_plain(c), templates=list(reversed(c["templates"])), mode=rng.choice(["slice", "worker"])))
             meta.append(("batch", i, None))
         if c["circular"]:
             for ti, t in enumerate(c["templates"]):
@@ -538,7 +757,7 @@ def relational(ctx, cases, obs, label):
                 if L < 2:
                     continue
                 rots = range(1, L) if L <= 24 else sorted({1, L - 1, L // 2, rng.randrange(1, L), rng.randrange(1, L)})
-                derived.append(dict(to_vh(c), templates=[t[r:] + t[:r] for r in rots]))
+                derived.append(dict(to_vh_plain(c), templates=[t[r:] + t[:r] for r in rots]))
                 meta.append(("rotation", i, ti))
     dobs = run_cases(ctx, derived)
     counts = dict(strand=0, rotation=0, batch=0)
@@ -598,12 +817,54 @@ def parse_fasta_json(text):
     return recs
 
 
-def run_obipcr(ctx, bindir, c, workdir, k):
-    import os, subprocess
-    path = os.path.join(workdir, "cli_%d.fasta" % k)
-    with open(path, "w") as f:
-        for i, t in enumerate(c["templates"]):
-            f.write(">t%d\n%s\n" % (i, t))
+def parse_records(text, fmt):
+    """records written by obipcr: fasta / fastq with JSON title-line annotations, or --json-output"""
+    if fmt == "json":
+        return [dict(id=r.get("id"), ann=r.get("annotations") or {}, seq=r.get("sequence", ""), qual=[ord(x) - 33 for x in r["qualities"]] if r.get("qualities") else None)
+                for r in json.loads(text or "[]")]
+    if fmt == "fasta":
+        return [dict(r, qual=None) for r in parse_fasta_json(text)]
+    recs, lines = [], text.splitlines()
+    for k in range(0, len(lines) - 3, 4):
+        head = lines[k][1:]
+        sp = head.find(" ")
+        rid, rest = (head, "") if sp < 0 else (head[:sp], head[sp + 1:].strip())
+        ann = {}
+        if rest.startswith("{"):
+            try:
+                ann = json.loads(rest)
+            except ValueError:
+                ann = {}
+        recs.append(dict(id=rid, ann=ann, seq=lines[k + 1].strip(), qual=[ord(x) - 33 for x in lines[k + 3].strip()]))
+    return recs
+
+
+def run_obipcr(ctx, bindir, c, workdir, k, v=None):
+    """One run of the obipcr command on the templates of c. v = plumbing variant: fastq (scores), stdin, gz (compressed input),
+    files=n (templates spread over n files), no_order, batch_size, max_cpu, force_one_cpu, out = fasta|fastq|json, out_file, compress."""
+    import os, subprocess, gzip
+    v = v or {}
+    qs, an = c.get("quals") or [], c.get("annots") or []
+    fastq = bool(v.get("fastq") or any(qs))
+    if fastq:            # a fastq file gives every record scores
+        c["quals"] = [(qs[i] if i < len(qs) and qs[i] else [40] * len(t)) for i, t in enumerate(c["templates"])]
+    nfiles = max(1, min(v.get("files", 1), len(c["templates"])))
+    per = (len(c["templates"]) + nfiles - 1) // nfiles
+    paths = []
+    for fi in range(nfiles):
+        path = os.path.join(workdir, "cli_%d_%d.%s%s" % (k, fi, "fastq" if fastq else "fasta", ".gz" if v.get("gz") else ""))
+        out = []
+        for i in range(fi * per, min(len(c["templates"]), (fi + 1) * per)):
+            t = c["templates"][i]
+            head = "t%d" % i + ((" " + json.dumps(an[i])) if i < len(an) and an[i] else "")
+            if fastq:
+                out.append("@%s\n%s\n+\n%s\n" % (head, t, "".join(chr(33 + x) for x in c["quals"][i])))
+            else:
+                out.append(">%s\n%s\n" % (head, t))
+        data = "".join(out).encode()
+        with (gzip.open(path, "wb") if v.get("gz") else open(path, "wb")) as f:
+            f.write(data)
+        paths.append(path)
     cmd = [os.path.join(bindir, "obipcr"), "--forward", c["fwd"], "--reverse", c["rev"], "-e", str(c["ef"]),
            "-l", str(c["min"]), "-L", str(c["max"]), "--no-progressbar"]
     if c["ext"] >= 0:
@@ -614,21 +875,59 @@ def run_obipcr(ctx, bindir, c, workdir, k):
         cmd += ["-c"]
     if c.get("fragmented"):
         cmd += ["--fragmented"]
+    for opt, flag in (("batch_size", "--batch-size"), ("max_cpu", "--max-cpu")):
+        if v.get(opt):
+            cmd += [flag, str(v[opt])]
+    if v.get("force_one_cpu"):
+        cmd += ["--force-one-cpu"]
+    if v.get("no_order"):
+        cmd += ["--no-order"]
+    fmt = v.get("out") or ("fastq" if fastq else "fasta")
+    if v.get("out"):
+        cmd += ["--%s-output" % v["out"]]
+    outpath = os.path.join(workdir, "cli_%d.out" % k)
+    if v.get("out_file"):
+        cmd += ["-o", outpath]
+    if v.get("compress"):
+        cmd += ["-Z"]
+    stdin = None
+    if v.get("stdin"):
+        stdin = open(paths[0], "rb").read()
+        if v.get("gz"):
+            stdin = gzip.decompress(stdin)
+    else:
+        cmd += paths
     try:
-        p = subprocess.run(cmd + [path], capture_output=True, timeout=120)
+        p = subprocess.run(cmd, input=stdin, capture_output=True, timeout=120)
     except subprocess.TimeoutExpired:
         return None, "timeout"
     if p.returncode != 0:
         return None, "exit %d: %s" % (p.returncode, p.stderr.decode("utf8", "replace")[-300:])
+    raw = open(outpath, "rb").read() if v.get("out_file") else p.stdout
+    if v.get("compress"):
+        try:
+            raw = gzip.decompress(raw)
+        except OSError as e:
+            return None, "output is not gzip: %s" % e
     amps = [[] for _ in c["templates"]]
-    for r in parse_fasta_json(p.stdout.decode("utf8", "replace")):
+    try:
+        recs = parse_records(raw.decode("utf8", "replace"), fmt)
+    except ValueError as e:
+        return None, "unreadable output: %s" % e
+    for r in recs:
         m = r["id"].split("_sub")[0]
         if not (m.startswith("t") and m[1:].isdigit() and int(m[1:]) < len(amps)):
             return None, "amplicon with unknown id " + r["id"]
         a = r["ann"]
         amps[int(m[1:])].append(dict(seq=r["seq"], dir=a.get("direction"), fm=a.get("forward_match"), fe=a.get("forward_error"),
-                                     rm=a.get("reverse_match"), re=a.get("reverse_error")))
+                                     rm=a.get("reverse_match"), re=a.get("reverse_error"), fp=a.get("forward_primer"), rp=a.get("reverse_primer"),
+                                     qual=r["qual"], pm=a.get("pairing_mismatches"), extra={x: str(y) for x, y in a.items() if x not in OWN_KEYS}))
     return amps, None
+
+
+PLUMBING = [dict(), dict(fastq=True), dict(stdin=True), dict(gz=True), dict(files=2), dict(files=3, no_order=True), dict(batch_size=1), dict(batch_size=2, max_cpu=1),
+            dict(force_one_cpu=True), dict(out="json"), dict(out_file=True), dict(compress=True), dict(fastq=True, out="fasta"), dict(fastq=True, files=2, batch_size=3),
+            dict(stdin=True, fastq=True, out="json", force_one_cpu=True)]
 
 
 def cli_cases(rng):
@@ -683,32 +982,88 @@ def cli_cases(rng):
     return cases
 
 
+def plumbing_case(rng):
+    """One batch for every plumbing variant of the command: amplicons on both strands, sites with mismatches, templates without
+    amplicon, the stale-tail shape of the recycled C buffer (a short template after a long one, see hand_cases), more templates
+    than one batch of the command holds (--batch-size defaults to 10), annotations and pairing_mismatches in the title lines."""
+    f6, r6 = "acgtac", "ggccgg"
+    long1 = "tt" + f6 + "aaaaa" + rc(r6) + "tt" + "c" * 70
+    ts = [long1, long1[:15], long1[:16], rc(long1), rc(long1)[:len(long1) - 6], "tt" + "acgaac" + "aaaaaaa" + rc(r6) + "tt", rc("tt" + f6 + "aaaa" + rc("gtccgg") + "tt"),
+          "a" * 30, "tt" + f6 + rc(r6) + "tt", long1[:17], long1, "tt" + f6 + "a" * 60 + rc(r6), long1[:14], rc(long1)[:20]]
+    for _ in range(4):
+        ts.insert(rng.randrange(len(ts) + 1), rand_seq(rng, rng.randrange(20, 60)))
+    an = []
+    for t in ts:
+        a = dict(count=rng.randrange(1, 9))
+        if rng.random() < 0.7:
+            a["pairing_mismatches"] = {key: rng.randrange(1, len(t) + 1) for key in rng.sample(PM_KEYS, 3)}
+        an.append(a)
+    return dict(templates=ts, annots=an, fwd=f6, rev=r6, ef=1, er=1, min=1, max=40, ext=rng.choice([-1, 2]), full=False, circular=False, mode="cli")
+
+
+def rotation_cli_case(rng, full):
+    """lead (emission guard of _Pcr): -c -D n with / without --only-complete-flanking on every rotation of one circle"""
+    t = "acgtac" + "aaaaa" + rc("ggccgg") + rand_seq(rng, 13, "ct")
+    return dict(templates=[t[r:] + t[:r] for r in range(len(t))], fwd="acgtac", rev="ggccgg", ef=0, er=0, min=0, max=30, ext=4, full=full, circular=True, mode="cli")
+
+
 def cli_clause(ctx, broken):
-    """obipcr itself (CLIPCR: option plumbing, batches, workers, IFragments) against the same brute-force oracle."""
+    """obipcr itself (option parsing, readers: fasta / fastq / gzip / stdin / several files, batches, workers, IFragments,
+    writers) against the same brute-force oracle, records with their inherited scores and annotations."""
     import tempfile
     bindir, err = ctx.build_cmds(["obipcr"])
     if bindir is None:
         broken.append(dict(kind="command-build", detail=err))
         return dict(runs=0)
-    stats = dict(runs=0, templates=0, amplicons=0, fragmented_templates=0)
+    stats = dict(runs=0, templates=0, amplicons=0, fragmented_templates=0, plumbing_variants=0, records_with_scores=0)
     nrep = 0
+    rng = ctx.rng
+    jobs = [(c, {}) for c in cli_cases(rng)]
+    for v in PLUMBING:
+        jobs.append((plumbing_case(rng), v))
+    jobs.append((rotation_cli_case(rng, False), dict(batch_size=4)))
+    jobs.append((rotation_cli_case(rng, True), {}))
+    for j in range(6 if ctx.quick else 60):          # random cases (with what templates carry) through random plumbing
+        c = gen_case(rng, circular=(j % 3 == 2), small=(j % 2 == 0), inherit=True)
+        c["er"] = c["ef"]
+        c["max"] = c["max"] or 50
+        keep = [i for i, t in enumerate(c["templates"]) if t]
+        for key in ("templates", "quals", "annots"):
+            if c.get(key):
+                c[key] = [c[key][i] for i in keep]
+        if c["templates"]:
+            jobs.append((c, rng.choice(PLUMBING)))
     with tempfile.TemporaryDirectory(prefix="c11cli") as wd:
-        for k, c in enumerate(cli_cases(ctx.rng)):
-            amps, err = run_obipcr(ctx, bindir, c, wd, k)
+        for k, (c, v) in enumerate(jobs):
+            amps, err = run_obipcr(ctx, bindir, c, wd, k, v)
             stats["runs"] += 1
+            stats["plumbing_variants"] += 1 if v else 0
             if amps is None:
-                ctx.violation("cli_%d_failed" % k, dict(property="C11", kind="obipcr-run", case=to_vh(c), fragmented=bool(c.get("fragmented")), error=err))
+                ctx.violation("cli_%d_failed" % k, dict(property="C11", kind="obipcr-run", case=dict(to_vh(c), mode="cli"), plumbing=v, fragmented=bool(c.get("fragmented")), error=err))
                 continue
             for ti, t in enumerate(c["templates"]):
                 stats["templates"] += 1
                 stats["amplicons"] += len(amps[ti])
+                stats["records_with_scores"] += sum(1 for a in amps[ti] if a.get("qual"))
                 stats["fragmented_templates"] += 1 if c.get("fragmented") else 0
                 exp, unc = spec_pcr(t, c)
                 got, want = canon(amps[ti]), canon(exp)
+                extra = None
                 if got == want:
-                    continue
+                    inh = None
+                    if v.get("out") == "fasta":          # a fasta output drops the scores
+                        for a in amps[ti]:
+                            a["qual"] = None
+                        inh = judge_inherited(dict(c, quals=None), ti, exp, amps[ti])
+                    elif not c.get("fragmented"):
+                        inh = judge_inherited(c, ti, exp, amps[ti])
+                    if inh is None and all(a["fp"] == c["fwd"] and a["rp"] == c["rev"] for a in amps[ti]):
+                        continue
+                    extra = dict(klass=inh[0] if inh else "primer-annotation", got=inh[1] if inh else None, want=inh[2] if inh else None)
                 key = None
-                if c.get("fragmented") and set(got) == set(want):
+                if extra:
+                    pass
+                elif c.get("fragmented") and set(got) == set(want):
                     key = "fragmented-duplicates"
                 elif c.get("fragmented") and c["ext"] >= 0 and set(want) <= set(got) and all(
                         any(x[1:] == w_[1:] and x[0] in w_[0] for w_ in want) for x in got if x not in want):
@@ -720,12 +1075,15 @@ def cli_clause(ctx, broken):
                     continue
                 nrep += 1
                 if nrep <= 3:
-                    ctx.violation("cli_%d_%d" % (k, ti), dict(property="C11", kind="obipcr-vs-oracle", fragmented=bool(c.get("fragmented")),
-                                                             case=dict(to_vh(c), templates=[t], mode="cli", fragmented=bool(c.get("fragmented"))),
-                                                             implementation=got, expected=want,
-                                                             missing=[x for x in want if x not in got], unexpected=[x for x in got if x not in want]))
+                    one = dict(to_vh(c), templates=[t], mode="cli", fragmented=bool(c.get("fragmented")))
+                    for key2 in ("quals", "annots"):
+                        if c.get(key2):
+                            one[key2] = [c[key2][ti]]
+                    ctx.violation("cli_%d_%d" % (k, ti), dict(property="C11", kind="obipcr-vs-oracle", fragmented=bool(c.get("fragmented")), plumbing=v,
+                                                             case=one, implementation=got, expected=want, inherited=extra,
+                                                             missing=[x for x in want if x not in got], unexpected=[x for x in got if x not in want],
+                                                             note="replayed alone; if it only fails inside its batch, replay the batch: " + json.dumps(dict(to_vh(c), mode="cli"))[:2000] if len(c["templates"]) <= 30 else None))
     return stats
-
 
 
 # ------------------------------------------------------------------ obiiter.IFragments (fragment arithmetic of --fragmented)
@@ -816,6 +1174,188 @@ def frag_clause(ctx, broken):
     return stats
 
 
+# ------------------------------------------------------------------ the pieces of _Pcr called directly (vh c11ops)
+OPS_IMPORTS = "From Coq Require Import ZArith NArith List. Import ListNotations.\nFrom OBI.C11 Require Import Model ModelQ.\nOpen Scope N_scope."
+
+
+def ops_cases(rng, n):
+    """obiseq.Subsequence with every argument shape (error returns included: _Pcr is proved never to produce them, a
+    changed _Pcr might), ReverseComplement (in place or not, direct or through its worker) with qualities, and the option set."""
+    C = []
+    for t in ["", "a", "acgtacgtaa", "ttacgtaaaaaggcctt"]:
+        L = len(t)
+        for circular in (False, True):
+            for (a, b) in [(0, L), (0, 0), (0, 1), (1, 1), (2, 1), (-1, 2), (L - 1, L), (L, L + 1), (L - 1, L + 1), (0, L + 1), (L, L), (3, 3 + L), (3, 4 + L),
+                           (L + 2, L + 4), (2 * L + 1, 3 * L), (5, 0), (1, 0), (-3, -1)]:
+                C.append(dict(op="subseq", seq=t, **{"from": a, "to": b}, circular=circular))
+    for _ in range(n):
+        L = rng.choice([1, 2, 3, 7, 10, 20])
+        t = rand_seq(rng, L, BASES + "n")
+        a = rng.choice([0, 1, L - 1, L, rng.randrange(-2, 2 * L + 2)])
+        b = rng.choice([a, a + 1, L, L + 1, a + L, a + L + 1, rng.randrange(-2, 3 * L + 2)])
+        c = dict(op="subseq", seq=t, **{"from": a, "to": b}, circular=rng.random() < 0.6)
+        if rng.random() < 0.5:
+            c["qual"] = [rng.randrange(0, 61) for _ in t]
+        if rng.random() < 0.6:
+            c["pm"] = {key: rng.choice([1, L, rng.randrange(1, L + 1), rng.randrange(0, L + 3)]) for key in rng.sample(PM_KEYS, rng.choice([1, 2, 4]))}
+        C.append(c)
+    for t in ["", "a", "ac", "acg", "acgtnrykmswbdhv", "aacc", "acgt", "ac-g.t[ac]n", "a*c1g t", "-", "[", ".]"]:
+        for inplace in (False, True):
+            for worker in (False, True):
+                C.append(dict(op="revcomp", seq=t, qual=list(range(1, len(t) + 1)) if len(t) % 2 else None, inplace=inplace, worker=worker))
+    C.append(dict(op="revcomp_nil"))
+    for _ in range(n // 2):
+        t = rand_seq(rng, rng.randrange(0, 30), BASES * 3 + "nrykmswbdhv")
+        C.append(dict(op="revcomp", seq=t, qual=[rng.randrange(0, 61) for _ in t] if rng.random() < 0.6 else None,
+                      inplace=rng.random() < 0.5, worker=rng.random() < 0.3,
+                      pm={key: rng.randrange(1, len(t) + 1) for key in rng.sample(PM_KEYS, rng.choice([1, 3]))} if t and rng.random() < 0.6 else None))
+    for k in range(max(6, n // 6)):
+        c = dict(op="options", fwd=rand_primer(rng, rng.randrange(3, 9)), rev=rand_primer(rng, rng.randrange(3, 9)), ef=rng.randrange(0, 3), er=rng.randrange(0, 3),
+                 min=rng.randrange(0, 50), max=rng.randrange(0, 300), full=rng.random() < 0.5, circular=rng.random() < 0.5, order=rng.randrange(0, 9),
+                 ext=rng.choice([None, -1, 0, 3, 40]), batch=rng.choice([None, 1, 10]), workers=rng.choice([None, 1, 5]))
+        C.append(c)
+    return C
+
+
+def rc_any(s):
+    """nucComplement on any byte: gaps stay, brackets are exchanged, letters outside the IUPAC alphabet and any other byte give n"""
+    other = {".": ".", "-": "-", "[": "]", "]": "["}
+    return "".join(TCOMP.get(x, other.get(x, "n")) for x in reversed(s))
+
+
+def sub_expected(c):
+    """The statement of Subsequence on the domain _Pcr / _Segment / IFragments use it: ('ok', bases), ('err',) or None (outside:
+    only the model judges)."""
+    t, a, b, L = c["seq"], c["from"], c["to"], len(c["seq"])
+    if not c["circular"]:
+        return ("ok", t[a:b], a, b - a) if 0 <= a < b <= L else ("err",)
+    if a < 0:
+        return ("err",)
+    if L > 0 and a < b <= a + L:
+        return ("ok", circ(t, a, b - a), a, b - a)
+    return None
+
+
+def ops_clause(ctx, broken):
+    cases = ops_cases(ctx.rng, 120 if ctx.quick else 3000)
+    obs = ctx.vh_robust("c11ops", cases, timeout=300, one_timeout=20)
+    stats = dict(subseq=0, subseq_errors=0, subseq_outside_statement=0, revcomp=0, options=0)
+    terms, where, nrep = [], [], 0
+
+    def bad(k, what, c, o, exp):
+        nonlocal nrep
+        nrep += 1
+        if nrep <= 3:
+            ctx.violation("ops_%d_%s" % (k, what), dict(property="C11", kind="ops-oracle", what=what, case=c, implementation=o, expected=exp))
+    for k, (c, o) in enumerate(zip(cases, obs)):
+        if c["op"] == "subseq":
+            stats["subseq"] += 1
+            e = sub_expected(c)
+            if e is None:
+                stats["subseq_outside_statement"] += 1
+            elif e[0] == "err":
+                stats["subseq_errors"] += 1
+                if o["kind"] == "ok":
+                    bad(k, "subsequence-accepts-invalid-bounds", c, o, "an error")
+            else:
+                q = c.get("qual")
+                eq = [q[(e[2] + j) % len(q)] for j in range(e[3])] if q else None
+                if o["kind"] != "ok" or o["seq"] != e[1] or (o.get("qual") or None) != eq or o.get("arg_seq", "") != c["seq"]:
+                    bad(k, "subsequence", c, o, dict(seq=e[1], qual=eq))
+                elif c.get("pm"):
+                    # a mismatch is kept iff the window shows its position; its new position designates the same base
+                    L, want = len(c["seq"]), {}
+                    for key, p in c["pm"].items():
+                        occ = [j + 1 for j in range(e[3]) if (e[2] + j) % L == p - 1 and 1 <= p <= L]
+                        if occ:
+                            want[key] = occ
+                    got = o.get("pm") or {}
+                    if set(got) != set(want) or any(got[x] not in want[x] for x in want):
+                        bad(k, "subsequence-pairing-mismatches", c, o, want)
+            if o["kind"] == "ok" and c.get("pm") and len(c["seq"]) > 0 and c["from"] >= 0:
+                L = len(c["seq"])
+                for key, p in sorted(c["pm"].items()):
+                    j = (o.get("pm") or {}).get(key)
+                    terms.append("mkm (%d)%%Z (%d)%%Z (%d)%%Z (%d)%%Z (%s)" % (p, c["from"] % L, L, len(o["seq"]), "None" if j is None else "Some (%d)%%Z" % j))
+                    where.append(k)
+            # a negative end on a circular sequence makes the code slice with a negative bound (panic); the model is not meant
+            # to be faithful there (no caller does it): observation only
+            if o["kind"] in ("ok", "err", "panic") and not (c["circular"] and c["to"] < 0):
+                terms.append("mks %s (%d)%%Z (%d)%%Z %s (%s)" % (seq_term(c["seq"]), c["from"], c["to"], "true" if c["circular"] else "false",
+                                                         "Some " + seq_term(o["seq"]) if o["kind"] == "ok" else "None"))
+                where.append(k)
+        elif c["op"] == "revcomp_nil":
+            if o["kind"] != "ok" or not o["same"]:
+                bad(k, "reverse-complement-of-nil", c, o, "nil")
+        elif c["op"] == "revcomp":
+            stats["revcomp"] += 1
+            q = c.get("qual") or None
+            exp = dict(seq=rc_any(c["seq"]), qual=list(reversed(q)) if q else None)
+            if o["kind"] != "ok" or o["seq"] != exp["seq"] or (o.get("qual") or None) != exp["qual"]:
+                bad(k, "reverse-complement", c, o, exp)
+            elif c["inplace"] and not (o["same"] and o.get("arg_seq", "") == exp["seq"]):
+                bad(k, "reverse-complement-in-place-returns-another-object", c, o, exp)
+            elif not c["inplace"] and (o["same"] or o.get("arg_seq", "") != c["seq"] or (o.get("arg_qual") or None) != q):
+                bad(k, "reverse-complement-modifies-its-argument", c, o, exp)
+            elif c.get("pm"):
+                want = {pm_rev_key(key).lower(): len(c["seq"]) - p + 1 for key, p in c["pm"].items()}
+                if {x.lower(): y for x, y in (o.get("pm") or {}).items()} != want:
+                    bad(k, "reverse-complement-pairing-mismatches", c, o, want)
+            if o["kind"] == "ok":
+                terms.append("mkr %s %s" % (seq_term(c["seq"]), seq_term(o["seq"])))
+                where.append(k)
+                gp = {x.lower(): y for x, y in (o.get("pm") or {}).items()}
+                for key, p in sorted((c.get("pm") or {}).items()):
+                    terms.append("mkv (%d)%%Z (%d)%%Z (%s)" % (len(c["seq"]), p, "Some (%d)%%Z" % gp[pm_rev_key(key).lower()] if pm_rev_key(key).lower() in gp else "None"))
+                    where.append(k)
+        else:
+            stats["options"] += 1
+            if o["kind"] != "ok":
+                bad(k, "options", c, o, "an option set")
+                continue
+            g = o["opt"]
+            ext = c["ext"] if c["ext"] is not None else -1
+            exp = dict(ef=c["ef"], er=c["er"], min=c["min"], max=c["max"], ext=ext, hasext=int(ext > -1), full=int(c["full"]), circular=int(c["circular"]),
+                       batch=c["batch"] if c["batch"] is not None else 100, workers=c["workers"] if c["workers"] is not None else g["def_workers"],
+                       def_batch=100, def_ext=-1, def_hasext=0, def_min=0, def_max=0, def_ef=0, def_er=0, def_circular=0, def_full=0)
+            if any(g[x] != v for x, v in exp.items()):
+                bad(k, "options", c, g, exp)
+    badi, err = ctx.correspond("ops", OPS_IMPORTS, terms, fn="ops_mismatches", shard=400)
+    if badi is None:
+        broken.append(dict(kind="correspondence", detail=err))
+    elif badi and not ctx.violations:
+        k = where[badi[0]]
+        broken.append(dict(kind="correspondence", name="corr:C11/" + cases[k]["op"], n_diverging=len(badi), first_diverging_case=cases[k], implementation=obs[k]))
+    stats["model_vs_impl_mismatches"] = len(badi or [])
+    return stats
+
+
+BAD_PRIMERS = ["", "#acgt", "gg[cc", "ac[gt", "acg]t", "ac[]gt", "!", "acgt!", "acgt" * 16, "acgtgcatgactcagt" * 4 + "acgtacg", "ac gt", "ac1t"]
+
+
+def bad_primer_clause(ctx):
+    """Primers the pattern compiler must refuse (syntax errors, 64 symbols or more): OptionForwardPrimer / OptionReversePrimer
+    end the run (log.Fatal) - never a result."""
+    import itertools
+    cases = []
+    for p, side in itertools.product(BAD_PRIMERS, ("fwd", "rev")):
+        c = dict(templates=["ttacgtaaaaaggcctt"], fwd="acgt", rev="ggcc", ef=0, er=0, min=0, max=0, ext=-1, full=False, circular=False, mode="slice")
+        c[side] = p
+        cases.append(c)
+    obs = ctx.vh_robust("c11", cases, timeout=120, one_timeout=20)
+    stats = dict(cases=len(cases), refused=0, accepted=0)
+    for k, (c, o) in enumerate(zip(cases, obs)):
+        if o["kind"] == "fatal":
+            stats["refused"] += 1
+        elif o["kind"] == "ok":
+            stats["accepted"] += 1
+            if True:
+                ctx.violation("bad_primer_%d" % k, dict(property="C11", kind="malformed-primer-accepted", case=c, implementation=o, expected="log.Fatal"))
+        else:
+            ctx.violation("bad_primer_%d" % k, dict(property="C11", kind="malformed-primer-crash", case=c, implementation=o, expected="log.Fatal"))
+    return stats
+
+
 def run(ctx, broken):
     rng = ctx.rng
     nrand = 600 if ctx.quick else 12000
@@ -826,7 +1366,7 @@ def run(ctx, broken):
         cases.append(gen_tiny_circle(rng))
     # evaluated by chunks (one chunk in the quick tier) so that the thorough tier keeps a bounded memory footprint
     CH = 2000
-    stats, rel, nontriv, dist, mism_first, n_mism, samples = {}, {}, set(), {}, None, 0, []
+    stats, rel, nontriv, dist, mism_first, n_mism, samples, classes = {}, {}, set(), {}, None, 0, [], {}
     nchunks = (len(cases) + CH - 1) // CH
     for ci in range(nchunks):
         chunk = cases[ci * CH:(ci + 1) * CH]
@@ -844,6 +1384,14 @@ def run(ctx, broken):
                         nontriv.add((t,) + tuple(c[k] for k in CASE_KEYS[1:-1]))
             k = "%s/%s/%s/%s" % ("circular" if c["circular"] else "linear", "ext" if c["ext"] >= 0 else "noext", c["mode"], o["kind"])
             dist[k] = dist.get(k, 0) + 1
+            for k, v in (("templates_with_scores", sum(1 for q in (c.get("quals") or []) if q)),
+                         ("templates_with_pairing_mismatches", sum(1 for a in (c.get("annots") or []) if a.get("pairing_mismatches"))),
+                         ("templates_with_own_pcr_annotations", sum(1 for a in (c.get("annots") or []) if "forward_match" in a)),
+                         ("templates_with_iupac_letters", sum(1 for t in c["templates"] if set(t) - set("acgt"))),
+                         ("batches_of_5_or_more", int(len(c["templates"]) >= 5)),
+                         ("primers_over_20_symbols", int(max(plen(c["fwd"]), plen(c["rev"])) > 20)),
+                         ("budgets_of_3_or_more", int(max(c["ef"], c["er"]) >= 3))):
+                classes[k] = classes.get(k, 0) + v
         if ci == 0:
             samples += [dict(case=to_vh(c), implementation=o) for c, o in list(zip(chunk, obs))[:2]]
         if ci == nchunks - 1:
@@ -860,7 +1408,10 @@ def run(ctx, broken):
                        "distinct = distinct (template, primers, budgets, min, max, flank, full, topology)")
     cli = cli_clause(ctx, broken)
     frag = frag_clause(ctx, broken)
-    ctx.cov["distribution"] = dict(cases=dist, **stats, relational=rel, obipcr_command=cli, ifragments=frag)
+    ops = ops_clause(ctx, broken)
+    badp = bad_primer_clause(ctx)
+    ctx.cov["distribution"] = dict(cases=dist, input_classes=classes, **stats, relational=rel, obipcr_command=cli, ifragments=frag,
+                                   direct_calls=ops, malformed_primers=badp)
     ctx.samples = samples
     ctx.cov["model_vs_impl_mismatches"] = n_mism
     if n_mism and not ctx.violations:
@@ -875,6 +1426,16 @@ def run(ctx, broken):
 
 def replay(ctx, rp):
     c = rp["case"]
+    if "op" in c:
+        o = ctx.vh_robust("c11ops", [c], timeout=60)[0]
+        print("replay (%s called directly):" % c["op"], json.dumps(c))
+        print(" implementation:", json.dumps(o), "| expected:", json.dumps(rp.get("expected")), "|", rp.get("what"))
+        return
+    if str(rp.get("kind", "")).startswith("malformed-primer"):
+        o = ctx.vh_robust("c11", [to_vh(c)], timeout=60)[0]
+        print("replay (malformed primer, must be refused with log.Fatal):", json.dumps(to_vh(c)))
+        print(" implementation:", json.dumps(o)[:600], "|", "refused" if o["kind"] == "fatal" else "NOT refused")
+        return
     if "lens" in c:
         o = ctx.vh_robust("c11frag", [c], timeout=60)[0]
         print("replay (IFragments):", json.dumps(c))
@@ -884,7 +1445,7 @@ def replay(ctx, rp):
         import tempfile
         bindir, err = ctx.build_cmds(["obipcr"])
         with tempfile.TemporaryDirectory(prefix="c11cli") as wd:
-            amps, err = run_obipcr(ctx, bindir, c, wd, 0)
+            amps, err = run_obipcr(ctx, bindir, c, wd, 0, rp.get("plumbing"))
         print("replay (obipcr%s):" % (" --fragmented" if c.get("fragmented") else ""), err or "")
         for ti, t in enumerate(c["templates"]):
             exp, unc = spec_pcr(t, c)
